@@ -16,7 +16,7 @@ pub const FAULT_CLASSES: &[&str] = &[
     "RedeclarationAsType", "RedeclarationAsProcedure", "RedeclarationAsParameter", "RedeclarationAsVariable",
     "MustBeAReferenceParameter", "MainIsNotAProcedure", "MainMustNotHaveParameters", "MissingTrailingSemic", "MissingClosing",
     "UnaryMinusNonInteger", "AssignmentLevels", "UndefinedVariableNested", "NotAVariableNested", "UndefinedVariableInArgs",
-    "AnonymousArrayIdentity", "CallOfShadowedProcedure",
+    "AnonymousArrayIdentity", "CallOfShadowedProcedure", "RedeclarationOtherType",
 ];
 
 /// Inject one violation of rule `class` into a well-typed program.  Returns the new token list and the
@@ -175,6 +175,24 @@ pub fn inject(rng: &mut Rng, prog: &Prog, class: &str) -> Option<(Vec<Tok>, usiz
         let ins: Vec<Tok> = tpl.iter().map(|t| tok(t, nd)).collect();
         toks.splice(at..at, ins);
         return Some((toks, at + lo, at + semi + 1, "CallOfNoneProcedure".to_string()));
+    }
+    // a name redeclared with ANOTHER type keeps its first declaration: the uses (written for the first type)
+    // get no diagnostic of their own
+    if class == "RedeclarationOtherType" {
+        let (tpl, lo, kind): (Vec<&str>, usize, &str) = match rng.below(4) {
+            0 => (vec!["proc", "pfa", "(", "a", ":", "int", ")", "{", "var", "a", ":", "array", "[", "2", "]", "of", "int", ";",
+                       "a", ":=", "a", "+", "1", ";", "}"], 9, "RedeclarationAsVariable"),
+            1 => (vec!["proc", "pfa", "(", ")", "{", "var", "i", ":", "int", ";", "var", "i", ":", "array", "[", "3", "]", "of", "int", ";",
+                       "i", ":=", "0", ";", "while", "(", "i", "<", "3", ")", "i", ":=", "i", "+", "1", ";", "}"], 11, "RedeclarationAsVariable"),
+            2 => (vec!["proc", "pfa", "(", "ref", "v", ":", "array", "[", "2", "]", "of", "int", ",", "v", ":", "int", ")", "{",
+                       "v", "[", "0", "]", ":=", "v", "[", "1", "]", ";", "}"], 13, "RedeclarationAsParameter"),
+            _ => (vec!["type", "tfr", "=", "int", ";", "type", "tfr", "=", "array", "[", "2", "]", "of", "int", ";",
+                       "proc", "pfa", "(", "x", ":", "tfr", ")", "{", "x", ":=", "x", "*", "2", ";", "}"], 6, "RedeclarationAsType"),
+        };
+        let at = toks.len();
+        let ins: Vec<Tok> = tpl.iter().map(|t| tok(t, nd)).collect();
+        toks.splice(at..at, ins);
+        return Some((toks, at + lo, at + lo + 1, kind.to_string()));
     }
     if let Some((tpl, lo, hi)) = decl {
         let at = if class == "MainIsNotAProcedure" { 0 } else { toks.len() };
